@@ -1216,6 +1216,8 @@ static int replay(const std::string &file)
     return 2;
   }
   Bytes body = kase.substr(2);
+  printf("(a sanitizer report below is printed unsymbolised; set UBSAN_OPTIONS=print_stacktrace=1:symbolize=1 ASAN_OPTIONS=symbolize=1 for names)\n");
+  fflush(stdout);
   if (kase[0] == 'W')
   {
     RefDecoded ref = refDecode(body);
